@@ -44,4 +44,9 @@ META = {
   "text": "Every combination of policy x replay path x same-or-different existing type arises from generation and is labelled from what was measured; the double holds the pre-existing values so 'unchanged' is a byte comparison. Exploration level.",
   "note": "Plain (non-bidirectional) replay path. Same trusted base as C03.",
  },
+ "C04": {
+  "technique": "property-based testing (rapid) for the snapshot/configuration + exhaustive enumeration of four fault dimensions per case (truncation lengths, single-byte alterations in sandboxed child processes, target error index, cancellation instant); coverage-guided native fuzzing of the parser in the thorough tier",
+  "text": "Each generated snapshot is replayed hundreds of times with exactly one fault each; 'incomplete' is decided by comparing the double's final keyspace with the dataset, and the forbidden outcome (success reported / snapshot offset stored / next start resumes behind the snapshot) is read off the double's request log and a fresh StartPoint. Fault enumeration: the fault space per case is finite and cheap.",
+  "note": "Plain replay path; trusted base as C03. Cancellation instants are 'after the k-th target request' (the harness does not own the Go scheduler inside the tool). A footer alteration that would fabricate the all-zero 'checksum disabled' footer is skipped.",
+ },
 }
